@@ -33,7 +33,7 @@ STUBS = []
 PROBES = ['roundtrip_variant', 'roundtrip_circ', 'layout_multi_file', 'layout_interleaved', 'layout_empty_body',
           'idx_loaded', 'repeated_load', 'stale_rejected', 'identical_rewrite_accepted', 'reindex_after_edit',
           'foreign_idx', 'no_checksum', 'kind_Fusion', 'kind_Insertion', 'kind_Deletion', 'kind_Substitution',
-          'kind_MNV', 'kind_RNAEditingSite', 'kind_INDEL', 'kind_SNV', 'harvested_records']
+          'kind_MNV', 'kind_RNAEditingSite', 'kind_INDEL', 'kind_SNV', 'harvested_records', 'non_ascii_bytes']
 RULE = ('case = record pool (records harvested from the seven real parsers on the demo tool outputs + generated '
         'SNV/INDEL/MNV/RES/fusion/alt-splicing/circRNA records with random extra attributes); history = Hypothesis '
         'rule sequence (<=30 steps): round trip of a record, write a layout (1-4 files, contiguous or interleaved '
@@ -82,6 +82,9 @@ def extra_attrs(rng, r):
         r.attrs['STRAND'] = rng.choice(['+', '-'])
     if rng.random() < 0.2:
         r.attrs['PHASE_SET'] = str(rng.randint(1, 3))
+    if rng.random() < 0.2:
+        # multi-byte UTF-8 in an attribute value: byte offsets and character offsets differ
+        r.attrs['GENE_SYMBOL'] = rng.choice(['ΔNp63α', 'TNFα', 'β2M', 'IFN-γ'])
     return r
 
 
@@ -236,7 +239,7 @@ class Sim:
                                 {'line': w1, 'end': int(r.location.end), 'parsed_end': int(r2.location.end)})
 
     # ---- layouts -----------------------------------------------------------------------------
-    def op_layout(self, files, sort_tx):
+    def op_layout(self, files, sort_tx, utf8_header=False):
         """files: list of (kind, [indices]); writes them, opens a pool without idx, builds idx, opens a
         second pool with idx."""
         self.close()
@@ -250,7 +253,8 @@ class Sim:
             if sort_tx:
                 ls.sort(key=workload.line_tx_id)
             p = d / f'{kind}{k}.gvf'
-            p.write_text(workload.gvf_text(ls, kind == 'c'))
+            p.write_text(workload.gvf_text(
+                ls, kind == 'c', genome_fasta='/data/José/références/génome.fa' if utf8_header else None))
             self.files.append([p, kind == 'c', ls])
         if len(self.files) > 1:
             self.probe('layout_multi_file')
@@ -276,6 +280,8 @@ class Sim:
         self.probe('idx_loaded')
         self.compare_keys('noidx')
         self.compare_keys('idx')
+        if utf8_header or any(ord(c) > 127 for _, _, ls in self.files for l in ls for c in l):
+            self.probe('non_ascii_bytes')
         kinds = sorted({record_kind(l) for _, _, ls in self.files for l in ls})
         self.stats['sig'].append({'files': len(self.files), 'interleaved': inter, 'kinds': kinds})
 
@@ -460,9 +466,10 @@ def make_machine(workdir_factory, lines, objs, trace_box, stats_box):
         def roundtrip(self, kind, i):
             self.do(('roundtrip', kind, i))
 
-        @rule(files=st.lists(file_st, min_size=1, max_size=4), sort_tx=st.booleans())
-        def layout(self, files, sort_tx):
-            self.do(('layout', [list(f) for f in files], sort_tx))
+        @rule(files=st.lists(file_st, min_size=1, max_size=4), sort_tx=st.booleans(),
+              utf8_header=st.sampled_from([False, False, True]))
+        def layout(self, files, sort_tx, utf8_header):
+            self.do(('layout', [list(f) for f in files], sort_tx, utf8_header))
 
         @rule(name=st.sampled_from(['noidx', 'idx']), k=st.integers(0, 30), times=st.sampled_from([1, 1, 2, 3]))
         def load(self, name, k, times):
@@ -543,7 +550,7 @@ def replay(rep):
                 pass
         try:
             for op in rep['ops']:
-                sim.apply(tuple(op) if op[0] != 'layout' else ('layout', [tuple(f) for f in op[1]], op[2]))
+                sim.apply(tuple(op) if op[0] != 'layout' else ('layout', [tuple(f) for f in op[1]], *op[2:]))
         except Violation as v:
             return [dict(rep, clause=v.clause, signature=v.signature, detail=v.detail)]
         finally:
